@@ -10,9 +10,17 @@ DELIMS = [":", ":", ":", "/", "::", "_", "|"]
 U_ATOMS = [
     "", "h", "http://x/", "http://x/a", "http://x/a_", "http://x/a/", "http://x/A_", "GO:",
     "http://é/", "u#", "GO", "http", "http://x/a_b", "urn:x:", "a", "a:", "http://y#", "https://x/", "http://x/ß", "http://x/ς",
+    # two spellings of the same letter (NFC / NFD): different strings, nobody may normalise them into one
+    "http://x/\u00e9_", "http://x/e\u0301_",
+    # characters with a meaning to the machinery underneath (regular expressions, URL routing, CSV, Turtle)
+    "http://x/(a)+", "http://x/[a]", "http://x/a.b*", "http://x/a%20b/", "http://x/a b/",
+    # long prefixes that agree far beyond any plausible chunk / key-length limit and differ late
+    "http://long.example.org/" + "seg/" * 16, "http://long.example.org/" + "seg/" * 16 + "a_", "http://long.example.org/" + "seg/" * 16 + "b_",
+    "http://long.example.org/" + "seg/" * 64 + "a_", "http://long.example.org/" + "seg/" * 64 + "b_",
 ]
 U_EXT = "_/#aA1é:b"
-P_ATOMS = ["a", "A", "b", "ab", "a.b", "GO", "go", "http", "é", "", "B", "x y", "a_b", "urn", "GO:x", "a/b", "p|q", " a", "a ", "1", "http://x/", "ſ", "İ", "a\nb", "ß", "ς", "obo:go"]
+P_ATOMS = ["a", "A", "b", "ab", "a.b", "GO", "go", "http", "é", "", "B", "x y", "a_b", "urn", "GO:x", "a/b", "p|q", " a", "a ", "1", "http://x/", "ſ", "İ", "a\nb", "ß", "ς", "obo:go",
+           "\u00e9x", "e\u0301x", "a+b", "a*", "(a)", "[a]", "a?b", "^a$", "p" * 70 + "a", "p" * 70 + "b"]
 IDS = ["", "1", "0001", "a/b", "a#b", "a b", "é", "x", "a_1", "A_", "//x", "b", "_", "GO:1", "a\nb", "?q=1&r=2", "a%20b", " 1", "1 ", "x" * 300, "\t"]
 UNICODE = ["日本", "é́", "😀", "ß", "İ", "ǅ", "​", "퟿", "\U0010ffff"]
 PATTERNS = [None, None, "^\\d+$", "^[A-Z]{2}\\d{4}$", "", "a|b", "\\\\"]
